@@ -120,7 +120,14 @@ where
         let data = self.stream.buf_mut().take_chunk(self.remaining_data);
 
         match (data, end) {
-            (None, true) => Poll::Ready(Ok(None)),
+            // WebTransport payload has no length (`remaining_data == usize::MAX`): it ends with the stream.
+            (None, true) if self.remaining_data == usize::MAX => Poll::Ready(Ok(None)),
+            //= https://www.rfc-editor.org/rfc/rfc9114#section-7.1
+            //# When a stream terminates cleanly, if the last frame on the stream was
+            //# truncated, this MUST be treated as a connection error of type
+            //# H3_FRAME_ERROR.
+            // The stream ended while payload of the DATA frame is still owed.
+            (None, true) => Poll::Ready(Err(FrameStreamError::UnexpectedEnd)),
             (None, false) => Poll::Pending,
             (Some(d), true)
                 if d.remaining() < self.remaining_data
